@@ -236,6 +236,107 @@ def _worker(args):
     return res
 
 
+def replay_families(ck, tier):
+    """Hand-written classes built from constructs that keep per-call bookkeeping on the model (soft priorities, also inside a
+    dynamic constraint a class block refers to; dist scopes; in-place foreach expansion over a list of random size; solve
+    order): seed, N calls, restore the snapshot taken before them, N calls - the second run must replay the first; a fresh
+    object given the same seed must produce the same run as well, whatever the first object did before."""
+    import vsc
+    from vsc.model.rand_state import RandState
+    rng = random.Random("C09/replay-families/%d" % ck.seed)
+
+    def mk_classes():
+        @vsc.randobj
+        class SoftDyn:
+            def __init__(self):
+                self.a = vsc.rand_uint8_t()
+                self.b = vsc.rand_uint8_t()
+
+            @vsc.dynamic_constraint
+            def low_c(self):
+                vsc.soft(self.a < 16)
+
+            @vsc.constraint
+            def c1_c(self):
+                self.low_c()
+
+            @vsc.constraint
+            def c2_c(self):
+                vsc.soft(self.a >= 128)
+                self.b != self.a
+
+        @vsc.randobj
+        class DistRel:
+            def __init__(self):
+                self.a = vsc.rand_uint8_t()
+                self.b = vsc.rand_uint8_t()
+
+            @vsc.constraint
+            def c(self):
+                vsc.dist(self.a, [vsc.weight((10, 60), 3), vsc.weight(200, 1)])
+                self.b < self.a
+                vsc.soft(self.b > 5)
+
+        @vsc.randobj
+        class ListOrder:
+            def __init__(self):
+                self.n = vsc.rand_bit_t(3)
+                self.l = vsc.randsz_list_t(vsc.uint8_t())
+                self.k = vsc.rand_bit_t(4)
+
+            @vsc.constraint
+            def c(self):
+                self.l.size <= 5
+                with vsc.foreach(self.l, idx=True) as i:
+                    self.l[i] < 40
+                with vsc.if_then(self.n > 3):
+                    self.k < 4
+                with vsc.else_then:
+                    self.k >= 4
+                vsc.solve_order(self.n, self.k)
+        return [SoftDyn, DistRel, ListOrder]
+
+    def view(o):
+        return [int(getattr(o, f)) for f in ("a", "b", "n", "k") if hasattr(o, f)] + ([[int(v) for v in o.l]] if hasattr(o, "l") else [])
+
+    def run(o, n):
+        out = []
+        for _ in range(n):
+            try:
+                with common.quiet():
+                    o.randomize()
+                out.append(view(o))
+            except Exception as e:
+                out.append("raised:" + type(e).__name__)
+        return out
+    for rnd in range(12 if tier == "thorough" else 2):
+        for cls in mk_classes():
+            sd = rng.randrange(1 << 20)
+            n = rng.randint(3, 6)
+            o = cls()
+            if rng.random() < 0.5:
+                run(o, rng.randint(1, 3))                    # earlier activity on the object
+            o.set_randstate(RandState.mkFromSeed(sd))
+            snap = o.get_randstate()
+            first = run(o, n)
+            o.set_randstate(snap)
+            again = run(o, n)
+            fresh = cls()
+            fresh.set_randstate(RandState.mkFromSeed(sd))
+            other = run(fresh, n)
+            ck.count("eval_replay_family_runs")
+            case = {"class": cls.__name__, "seed": sd, "calls": n}
+            if again != first:
+                k = next(i for i in range(n) if again[i] != first[i])
+                ck.oracle_fail("restore-does-not-replay:" + cls.__name__, case, {"call": k, "replayed": again[k], "original": first[k]},
+                               "restoring a snapshot replays exactly the values that followed it")
+            elif other != first:
+                k = next(i for i in range(n) if other[i] != first[i])
+                ck.oracle_fail("same-seed-different-values:" + cls.__name__, case, {"call": k, "fresh_object": other[k], "used_object": first[k]},
+                               "for a given seed, class and call sequence the values are the same")
+    ck.sample({"kind": "replay families"})
+
+
 def main():
     tier, seed, replay = common.parse_args(sys.argv[1:])
     ck = common.Check("C09", tier, seed, ["C09"])
@@ -253,6 +354,7 @@ def main():
             ck.oracle_fail(f["signature"], f["case"], f["observed"], f["required"])
         for s in r["samples"]:
             ck.sample(s)
+    replay_families(ck, tier)
     # in-process: the model's draw discipline on the same kind of scenarios (draw bounds and order, candidates)
     solvecheck.OPTS["bounds"] = True
     d = solvecheck.run(ck, "C09", 150 if tier != "thorough" else 6000,
